@@ -12,7 +12,7 @@ mkdir -p $T || exit 2
 trap 'rm -rf $T' EXIT INT TERM
 sv=$T/verif
 mkdir -p $sv
-for d in contracts baseline monitor bin; do cp -r $V/$d $sv/ 2>/dev/null; done
+for d in contracts baseline monitor bin golden; do cp -r $V/$d $sv/ 2>/dev/null; done
 cp $V/props.json $V/known_findings.json $V/MANIFEST.json $sv/
 [ -x $sv/bin/kvc ] || { echo "selftest: build kvc first (./check C14 quick)"; exit 2; }
 run_one() {
